@@ -7,6 +7,7 @@ nbr <K> <bits>^K                                   → <index> ~d | panic
 next <street> <K> <N> (<H point> <bits>^K)^N       → ok <k> (<mass> <n> (<code> <count>)*)^k | panic   (k = street.k() from RP.Gen)
 lookup <street> <K> <N> (<bits>^K)^N               → ok <code>^N | panic
 metric <street> <K> <bits>^(K·K)                   → <n> (<key> ~v)*
+vdist <H point> <H centroid>                       → ~v        (Equity::variation of RP.Transport, Float32)
 H = <n> <mass> (<code> <count>)*
 ``` -/
 open RP.Driver RP.Transport RP.Kmeans
@@ -90,6 +91,13 @@ def handle (line : String) : String :=
         | none => "panic"
       | _ => "bad-op"
     | _, _, _ => "bad-op"
+  | "vdist" :: rest =>
+    match parseHist rest with
+    | some (x, r1) =>
+      match parseHist r1 with
+      | some (y, []) => fmt32 (variation x y : F)
+      | _ => "bad-op"
+    | none => "bad-op"
   | "metric" :: s :: k :: rest =>
     match nat? s, nat? k with
     | some s, some k =>
